@@ -10,7 +10,7 @@ RULE = ('a corpus of scenarios covering every request type (Discover both servic
         'duplicates, Query with 0/3/40 observations, QueryLargeTlv of icon / friendly name / hardware id / unknown, Reset) run under: '
         'the k-th core allocation failing for every k = 1..K (K above the scenario\'s allocation count), all allocations failing, single '
         'and repeated transmit refusals, every single failing getter and random subsets (thorough: all 2^9), then the fault cleared, a '
-        'Reset, and a continuation compared against a fresh twin interface; plus the four constructors under each allocation failure; '
+        'Reset, and a continuation compared against a fresh twin interface; plus the four constructors under each allocation failure, the tick with every subset of its objects missing in every enumeration state, and the daemon start-up order with the k-th allocation refused followed by the Discover flow and ticks; '
         'built with ASan+UBSan; non-trivial = at least one injected fault fired (the model\'s ledger or output differs from the fault-free run); '
         'distinct = distinct projected transcript')
 ASSUMPTIONS = ['port contract as for C02 (a failing getter leaves its output untouched)', 'memory corruption is observed by ASan/UBSan only (the model has value semantics)']
@@ -81,6 +81,34 @@ def cases(rng, tier, X):
             out.append(('ctor_%s_%d' % (kind, k), ['fault malloc=%d' % k, 'fsm new 0 %s' % kind, 'fault clear', 'fsm new 1 %s' % kind, 'fsm step 1 0', 'clock 40000', 'fsm step 1 2']))
     for k in (1, 2):
         out.append(('ctor_tbl_%d' % k, ['fault malloc=%d' % k, 'tbl new 0', 'fault clear', 'tbl new 1', 'tbl add 1 020000000001 1 1']))
+    # the tick with any subset of its objects missing (what a daemon passes on after a failed constructor), in every
+    # enumeration / mapping state, every wiring of the port
+    for mask in range(8):
+        for est in (0, 1, 2):
+            for port in ('wired', 'nolast', 'none'):
+                M, E, T = mask & 1, mask & 2, mask & 4
+                ops = ['fsm new 0 map', 'fsm new 1 enum', 'tbl new 0', 'clock 5000']
+                if T and est:
+                    ops.append('tbl add 0 020000000011 1 1')
+                ops += ['fsm set 1 %d 5' % est, 'band set 1 45 3 1 4000 4000', 'fsm step 0 0', 'map resetinact 0']
+                ops.append('tick %s %s %s %s' % ('0' if M else '-', '1' if E else '-', '0' if T else '-', port))
+                ops += ['clock 40000', 'tick %s %s %s %s' % ('0' if M else '-', '1' if E else '-', '0' if T else '-', port)]
+                out.append(('tick_m%d_e%d_%s' % (mask, est, port), ops))
+    # daemon start-up order (mapping, enumeration, session table) with the k-th allocation refused, then the documented Discover flow and ticks
+    for k in range(1, 7):
+        mnull, enull, tnull = k == 1, k in (3, 4), k == 5
+        ops = ['fault malloc=%d' % k, 'fsm new 0 map', 'fsm new 1 enum', 'tbl new 0', 'fault clear', 'clock 5000']
+        if not tnull:
+            ops.append('tbl add 0 020000000011 1 1')
+        if not mnull:
+            ops += ['fsm step 0 0']
+            if k != 2:
+                ops += ['map resetinact 0']
+        if not enull:
+            ops += ['band init 1', 'band choose 1', 'fsm step 1 3']
+        tk = 'tick %s %s %s wired' % ('-' if mnull else '0', '-' if enull else '1', '-' if tnull else '0')
+        ops += [tk, 'clock 6500', tk, 'clock 70000', tk]
+        out.append(('startup_m%d' % k, ops))
     out.append(('ctor_all', ['fault mallocall', 'fsm new 0 map', 'fsm new 1 sess', 'fsm new 2 enum', 'tbl new 0', 'espinit', 'fault clear', 'fsm new 0 map', 'tick 0 - - none']))
     return out
 
